@@ -10,7 +10,7 @@ PROPERTY = "C09"
 BUDGET = {"quick": 900, "thorough": 2400}
 namespaces = common.namespaces
 real_namespace = common.real_namespace
-GOALS = ["500 before output", "closed after output had begun", "traceback exposed only when configured", "iterable closed once on failure",
+GOALS = ["client EOF seen while the application runs", "500 before output", "closed after output had begun", "traceback exposed only when configured", "iterable closed once on failure",
          "iterable closed once on client disconnect", "file wrapper file closed after sending", "file wrapper file closed on teardown",
          "worker survives a BaseException"]
 ASSUMPTIONS = ["one worker running the real handler_thread loop body; the I/O thread's turn (handle_write) follows the worker's",
@@ -30,12 +30,13 @@ def _exc(name):
             "BaseException": AppBase}[name]
 
 
-def _d12(inp, obs):
-    """known finding D12: an application raising a BaseException subclass that is not an Exception"""
-    return inp["exc"] == "BaseException" and inp["step"] is not None
+def _d12(inp, obs, label=""):
+    """known finding D12: an application raising a BaseException subclass that is not an Exception is not answered /
+    closed by channel.service().  That the worker and the I/O loop survive is still demanded."""
+    return inp["exc"] == "BaseException" and inp["step"] is not None and not label.startswith(("the worker survives", "no exception reaches"))
 
 
-def _d19(inp, obs):
+def _d19(inp, obs, label=""):
     """known finding D19: an OSError raised by the application is taken for a socket error by Task.service: with
     log_socket_errors off it is swallowed - no 500 - and the connection is just closed"""
     return inp["exc"] in ("OSError", "ConnectionResetError") and inp["step"] is not None and not inp["logsock"]
@@ -60,11 +61,15 @@ def jobs(tier):
             if step == "close" and mode in ("file", "file_noseek"):
                 continue  # the file wrapper object is the server's own; there is no application close() to fail
             js.append(dict(name="F:%s:%s" % (mode, step), mode=mode, step=step))
+    js.append(dict(name="TEARDOWN", fam="TEARDOWN", mode="file", step=None))
     return js
 
 
 def make_inputs(job):
     eng = E()
+    if job.get("fam") == "TEARDOWN":
+        return dict(fam="TEARDOWN", nfiles=1 + eng.choose(3, "nfiles"), bad=eng.choose(3, "bad"), via=("will_close", "handle_close")[eng.choose(2, "via")],
+                    step=None, exc="Exception", disc=None, mode="file")
     k = eng.choose(3, "k")
     pieces = [b"abc", b"de"][:k]
     step = job["step"]
@@ -74,8 +79,9 @@ def make_inputs(job):
         raise PathAbort()
     exc = CLASSES[eng.choose(len(CLASSES), "exc")] if step is not None else "Exception"
     disc = (None, 1, 2, 3)[eng.choose(4, "disc")]
+    eof = bool(eng.choose(2, "eof")) if step is None and disc is None else False
     return dict(mode=job["mode"], pieces=pieces, step=step, exc=exc, disc=disc, expose=bool(eng.choose(2, "expose")),
-                logsock=bool(eng.choose(2, "logsock")), ver=("1.1", "1.0")[eng.choose(2, "ver")], hascl=bool(eng.choose(2, "hascl")))
+                logsock=bool(eng.choose(2, "logsock")), ver=("1.1", "1.0")[eng.choose(2, "ver")], hascl=bool(eng.choose(2, "hascl")), eof=eof)
 
 
 class FailApp:
@@ -139,6 +145,9 @@ class FailApp:
             return it
         start_response("200 OK", hdrs)
         self._maybe("after_start_response")
+        if inp.get("eof"):
+            # the I/O thread saw the client's EOF while the application was running (handle_read: recv() returned b"")
+            environ["waitress.client_disconnected"].__self__.connected = False
         if mode == "list":
             return It(iter(list(inp["pieces"])))
         data = b"".join(inp["pieces"])
@@ -164,7 +173,58 @@ class Sentinel:
         pass
 
 
+class RaisingCloseFile:
+    """file-like whose close() raises (once): a descriptor that fails on close"""
+
+    def __init__(self, inner, raises):
+        self.inner = inner
+        self.raises = raises
+        self.close_calls = 0
+
+    def read(self, n=-1): return self.inner.read(n)
+    def seek(self, *a): return self.inner.seek(*a)
+    def tell(self): return self.inner.tell()
+    def seekable(self): return True
+
+    def close(self):
+        self.close_calls += 1
+        if self.raises:
+            raise OSError(5, "close failed")
+
+
+def _teardown(ns, inp):
+    """several responses with handed-over files queued behind a client that does not read; then the connection is torn down"""
+    adj = common.make_adj(ns)
+    files = []
+
+    def app(environ, start_response):
+        i = len(files)
+        f = RaisingCloseFile(C03._make_file(ns, b"data%d" % i), raises=(i == inp["bad"]))
+        files.append(f)
+        start_response("200 OK", [("Content-Length", "5")])
+        return environ["wsgi.file_wrapper"](f, 2)
+
+    sock = env.SimSocket()
+    sock.accept = [0] * 50  # the client does not read
+    ch, srv, sock = common.new_channel(ns, adj, app, sock)
+    exc = None
+    try:
+        ch.received(b"".join(b"GET /%d HTTP/1.1\r\n\r\n" % i for i in range(inp["nfiles"])))
+        srv.task_dispatcher.run_all()
+        if inp["via"] == "will_close":
+            ch.will_close = True
+            ch.handle_write()
+        else:
+            ch.handle_close()
+    except Exception as e:  # noqa
+        exc = type(e).__name__
+    return dict(wire=b"", nsend=sock.nsend, closing=common.closing(ch), sock_closed=sock.closed, worker_alive=True, escaped=None, io_exc=exc,
+                closes=0, fclose=[f.close_calls for f in files], ncalls=len(files), queued=len(ch.requests), connected=bool(ch.connected))
+
+
 def scenario(ns, inp):
+    if inp.get("fam") == "TEARDOWN":
+        return _teardown(ns, inp)
     adj = common.make_adj(ns, expose_tracebacks=inp["expose"], log_socket_errors=inp["logsock"])
     app = FailApp(inp, ns)
     sock = env.SimSocket()
@@ -205,6 +265,11 @@ def scenario(ns, inp):
 
 
 def oracle(inp, obs):
+    if inp.get("fam") == "TEARDOWN":
+        return [("teardown raises nothing into the I/O loop (io_exc=%s)" % obs["io_exc"], obs["io_exc"] is None),
+                ("every file handed over through wsgi.file_wrapper is closed on teardown, also when another file's close() fails (close calls %r)" % (obs["fclose"],),
+                 len(obs["fclose"]) == inp["nfiles"] and all(c >= 1 for c in obs["fclose"])),
+                ("the socket is closed", obs["sock_closed"] >= 1)]
     out = [("the worker survives (the real handler_thread loop returns through its stop path; escaped=%s)" % obs["escaped"], obs["worker_alive"] and obs["escaped"] is None),
            ("no exception reaches the I/O loop (io_exc=%s)" % obs["io_exc"], obs["io_exc"] is None)]
     step, disc = inp["step"], inp["disc"]
@@ -231,6 +296,8 @@ def oracle(inp, obs):
         out.append(("after an application failure the connection is closed", obs["closing"] and obs["queued"] == 0))
     if failing and step == "close" and disc is None:
         out.append(("a failing close() does not keep the connection in service", obs["closing"] and obs["queued"] == 0))
+    if inp.get("eof") and inp["mode"] in ("list", "file", "file_noseek"):
+        out.append(("a client that disconnected while the application was running gets nothing more", len(wire) == 0))
     if disc is not None and obs["nsend"] >= disc:
         out.append(("after a client disconnect the connection is torn down", obs["sock_closed"] >= 1 and not obs["connected"]))
     # close() of the iterable: exactly once on every path where the application returned an iterable
@@ -251,6 +318,8 @@ def normalize(obs):
 
 def goals(cin, cobs):
     out = []
+    if cin.get("fam") == "TEARDOWN":
+        return ["file wrapper file closed on teardown"]
     w = cobs["wire"]
     if b" 500 " in w[:20]:
         out.append("500 before output")
@@ -264,6 +333,8 @@ def goals(cin, cobs):
         out.append("iterable closed once on client disconnect")
     if cin["mode"] == "file" and cobs["fclose"]:
         out.append("file wrapper file closed after sending" if cin["disc"] is None else "file wrapper file closed on teardown")
+    if cin.get("eof"):
+        out.append("client EOF seen while the application runs")
     if cin["exc"] == "BaseException" and cin["step"] is not None and cobs["worker_alive"]:
         out.append("worker survives a BaseException")
     return out
